@@ -8,6 +8,8 @@ Part 3  Emitted headers: ack / ack_bits of every packet built by a real Connecti
 """
 import itertools
 
+import struct
+
 from hypothesis import strategies as st
 
 from mpgameserver.connection import (SeqNum, BitField, DuplicationError, ConnectionBase, PacketHeader,
@@ -568,7 +570,13 @@ def msgwin_body(ctx, start, offsets):
     for d in offsets:
         pos = base if newest is None else newest + d
         n0 = len(conn.incoming_messages)
-        conn._recv_message(PacketType.APP, SeqNum(ring(pos)), b"m")
+        if pos % 3 == 0:
+            # a message of the fragment type (a one-fragment message: fragment id, index 1 of 1): the window keeps book of
+            # every message type alike
+            conn._recv_message(PacketType.APP_FRAGMENT, SeqNum(ring(pos)), struct.pack(">HHH", pos % 65521 + 1, 1, 1) + b"m")
+            flags.add("fragment-typed")
+        else:
+            conn._recv_message(PacketType.APP, SeqNum(ring(pos)), b"m")
         got = len(conn.incoming_messages) > n0
         if newest is None or pos > newest:
             exp = True
